@@ -79,7 +79,7 @@ def gen_entries(rng, n, kind):
         elif kind == "wrap" and rng.random() < 0.2:
             num = rng.choice([1, 2, 0xFFFFFFFF, 0xFFFFFFFE, 0x80000000, 0x7FFFFFFF])
         num = (num + 1) % (1 << 32) or 1
-        nl = 256 if kind == "long256" else rng.choice([1, 4, 9, 30, 100, 250]) if kind != "long" else rng.choice([200, 255, 256])
+        nl = rng.choice([1, 2, 3, 8]) if kind == "short" else 256 if kind == "long256" else rng.choice([1, 4, 9, 30, 100, 250]) if kind != "long" else rng.choice([200, 255, 256])
         mode = rng.choice([0o100644, 0o100755, 0o40755, 0o120777, 0o60600, 0o20600, 0o10644, 0o140644])
         out.append((gen_name(rng, nl), num, (blk << 16) | rng.randrange(0, 8192), mode))
     return out
@@ -102,7 +102,7 @@ def gen_ops(ctx):
         meta.append(kw)
 
     # conseq / dirw
-    shapes = [("same", n) for n in (1, 2, 255, 256, 257, 300, 513)] + \
+    shapes = [("same", n) for n in (1, 2, 255, 256, 257, 300, 513)] + [("short", n) for n in (255, 256, 257, 513, 700)] + \
              [("blocks", n) for n in (5, 40, 300)] + [("jumps", n) for n in (5, 40, 300)] + \
              [("wrap", 12), ("long", 40), ("long", 300), ("long256", 249), ("long256", 255)]
     reps = 2 if q else 12
@@ -1236,11 +1236,13 @@ def replay(ctx, path):
         print("model:", model)
         return 1 if crash or impl != model else 0
     if kind == "image":
-        r = run_image_job(ctx, tools, unz, {"desc": rp["job"]}, 0)
+        job = {"desc": rp["job"], "ids65536": rp["job"]["shape"] == {"kind": "ids", "n": 65536}}
+        r = run_image_job(ctx, tools, unz, job, 0)
         print("exit:", r["rc"], r["stderr"][-300:])
-        for v in r["viol"] + r["tree_bad"]:
+        for v in r["viol"] + r["tree_bad"] + r.get("layout_bad", []):
             print(v)
-        return 1 if r["viol"] or r["tree_bad"] or (r["rc"] or 0) >= 90 else 0
+        classify(ctx, job, r["viol"], rp["job"]["comp"])        # known findings do not count
+        return 1 if ctx.violations or r["tree_bad"] or (r["rc"] or 0) >= 90 or (r["rc"] or 0) < 0 else 0
     if kind == "num":
         impl, crash = run_harness(ctx, tools["h_c03n"], [rp["line"]])
         model = ctx.driver(["c03", "ops"], rp["line"] + "\n")
